@@ -91,7 +91,10 @@ func (g *c10Gen) options() string {
 
 func (g *c10Gen) fileArg() string {
 	return g.pick(append([]string{"", "/dev/zero", "/dev/null", "/", "/etc", "/nonexistent/file", "*", "/*/*/*/*", "[", "[a-", "\\", "/proc/self/mem",
-		"{a,b}", "/tmp/../../../etc/hostname", g.dir, g.dir + "/*", g.dir + "/many/*.log", g.dir + "/many/*.log", g.dir + "/[", "~", ".", "..", "/dev/stdin", "/proc/self/fd/0", strings.Repeat("a/", 200)}, g.files...))
+		"{a,b}", "/tmp/../../../etc/hostname", g.dir, g.dir + "/*", g.dir + "/many/*.log", g.dir + "/many/*.log",
+		// unclean spellings of paths with a wildcard (doubled slashes, ./ and ../ before the wildcard element)
+		g.dir + "//many/*.log", g.dir + "/./many/*.log", g.dir + "/many/../many/*.log", g.dir + "//*/m00*.log", g.dir + "/many//*.log",
+		"//" + strings.TrimPrefix(g.dir, "/") + "/*/*.log", g.dir + "/*/../*/m001.log", g.dir + "/./*", g.dir + "/many/./m0*", "./*", "../*/*", "*//*", g.dir + "/[", "~", ".", "..", "/dev/stdin", "/proc/self/fd/0", strings.Repeat("a/", 200)}, g.files...))
 }
 
 func (g *c10Gen) regexArg() string {
@@ -188,6 +191,7 @@ func (g *c10Gen) input() c10Input {
 			"tail " + f + " regex:noop ", "cat " + f + " regex:noop ", "grep " + f + " regex:default line",
 			"tail:plain=true " + g.files[1] + " regex:noop ", "cat:quiet=true " + g.dir + "/*.log regex:noop ",
 			"cat " + g.dir + "/many/*.log regex:noop ", "grep " + g.dir + "/many/m*.log regex:default one",
+			"cat " + g.dir + "//many/m00*.log regex:noop ", "cat " + g.dir + "/./*/m01*.log regex:noop ", "grep " + g.dir + "/many/../*/m02*.log regex:default one",
 			"cat " + g.dir + "/cut.gz regex:noop ", "cat " + g.dir + "/cut.zst regex:noop ", "grep " + g.dir + "/cut.gz regex:default STATS",
 			"map select count($line),last($line) group by $hostname set $x = md5sum($line) logformat generic", "cat " + g.dir + "/lines3000.log regex:noop ",
 			"map select count($line) group by $hostname",
@@ -238,7 +242,10 @@ func c10Probes(file string) []c10Input {
 	}
 	return []c10Input{mk("tail"), mk("cat"), mk("grep"), mk("map"), mk("map "), mk("map `"), mk("map select ` from x"), mk("cat " + file),
 		mk("map select count($line) from STATS interval 0"), mk("map select count($line) from STATS interval -1"),
-		mk("map:plain=true"), mk(".ack"), mk("timeout"), mk("tail:max=1"), mk("")}
+		mk("map:plain=true"), mk(".ack"), mk("timeout"), mk("tail:max=1"), mk(""),
+		mk("cat " + filepath.Dir(file) + "//many/m00*.log regex:noop "), mk("cat " + filepath.Dir(file) + "/./*/m01*.log regex:noop "),
+		mk("cat " + filepath.Dir(file) + "/many/../*/m02*.log regex:noop "), mk("cat:quiet " + file + " regex:noop "), mk("cat:plain=true: " + file + " regex:noop "),
+		mk("map select count($line) from STATS logformat bogus"), mk("map select count($line) logformat nosuchformat")}
 }
 
 func c10(r *vlib.Run) int {
